@@ -1,5 +1,6 @@
 import Storrent.Lemmas.PeerEvI
 import Storrent.Lemmas.TorMetaI
+import Storrent.Lemmas.CostAll
 import Storrent.Props.C04
 /-
 C05 — No message sequence from a remote peer can crash or bloat the client.
@@ -199,16 +200,6 @@ def PeerEmits (t : TorState) : TEv → Prop
   | .drop i b l => l = CS ∧ b % CS = 0 ∧ (i * (t.pieceSize / CS) + b / CS) < chunksOf t.length
   | _ => True
 
-/-- what one event may cost the torrent, as a function of the event alone (no torrent
-    state, no numeric field beyond the index a peer was allowed to announce) -/
-def torCost : TEv → Nat
-  | .peerHave i _ => 2 * (i + 1)
-  | .peerBitmap bm _ => 10 * bmLen bm
-  | .peerExtended _ => 48 + metaConst
-  | .metaData _ _ _ => 1025 + metaConst
-  | .addKnown _ _ _ v => 512 + v.length
-  | _ => 0
-
 theorem release_ok (t : TorState) (hg : Geom.Valid t) (i b n : Nat)
     (h : n = 0 ∨ (i * (t.pieceSize / CS) + b / CS + n) ≤ chunksOf t.length) :
     ∃ t', releaseLoop t ((i * (t.pieceSize / CS) + b / CS) % U32) n 0 = some t' := by
@@ -320,32 +311,6 @@ theorem C05_tor_no_panic (t : TorState) (e : TEv) (env : TorEnv) (hi : TInv t)
     obtain ⟨h1, h2, h3⟩ := releaseArm_spec t hi i b l (torDrop t i b l) (Or.inr rfl) hcount
     exact ⟨h1, by show (torDrop t i b l).alloc ≤ _; rw [h2]; exact Nat.zero_le _, h3⟩
 
-theorem bmRangeAux_lt (b : Bytes) (base : Nat) : ∀ x, x ∈ bmRangeAux b base → x < base + 8 * b.length := by
-  induction b generalizing base with
-  | nil => intro x hx; simp [bmRangeAux] at hx
-  | cons v r ih =>
-    intro x hx
-    unfold bmRangeAux at hx
-    rcases List.mem_append.mp hx with h | h
-    · split at h
-      · cases h
-      · obtain ⟨j, hj, hj2⟩ := List.mem_filterMap.mp h
-        have hj8 : j < 8 := by simpa using hj
-        split at hj2
-        · cases hj2; simp; omega
-        · cases hj2
-    · have := ih (base + 8) x h
-      simp at this ⊢; omega
-
-/-- a bitmap of `n` bytes announces at most `8n` pieces -/
-theorem bmLen_le (b : Bytes) : bmLen b ≤ 8 * b.length := by
-  unfold bmLen bmRange
-  split
-  · omega
-  · rename_i i hi
-    have := bmRangeAux_lt b 0 i (List.mem_of_getLast? hi)
-    omega
-
 /-- C05_tor_alloc_bound — the torrent-side half of the allocation clause, for every event and
     every state satisfying the invariant: the bytes `tor.handleEvent` allocates are bounded
     by a function of the event alone, which for the events a message gives rise to is
@@ -366,7 +331,61 @@ theorem C05_tor_alloc_bound (t : TorState) (e : TEv) (env : TorEnv) (hi : TInv t
   · intro n hn; subst hn; rfl
   · intro sz ix d hd; subst hd; rfl
 
-/-! ### allocation (partial: the clause about attacker-chosen indexes) -/
+/-! ### allocation -/
+
+/-- C05_alloc_bound — for every reachable state `s`, every message a reader can deliver (all
+    23 decoded message types with arbitrary field values and payloads, and `protocol.Error`),
+    whatever the piece store, `write` and the rate regime do:
+
+      bytes allocated by `handleMessage`  +  Σ `torCost e` over the events it emits
+        ≤  192·|m|  +  constB  +  idxTerm s  +  stateTerm s
+
+    where `|m| = wireSize m` is (a lower bound on) the size of the frame, `torCost e` bounds
+    what `tor.handleEvent` allocates for `e` (`C05_tor_alloc_bound`), and
+    * `constB = metaConst + 8192`, `metaConst = 128 MiB + 9·8192`: the metadata buffers
+      `resizeMetadata` may allocate (cap of `metadataVote`), reached by Extended0 / metadata
+      data only;
+    * `idxTerm s = 23·N + 512` with `N` the piece count an index is checked against: the real
+      one once the metadata is known, **`maxPieces = 8·2^20` before** — the constant bound of
+      Have / HaveAll / AllowedFast / Bitfield-before-metadata (peer bitmap N/8, availability
+      2N, potential of the bitmap), independent of the index in the message;
+    * `stateTerm s = 400·|queue| + 128·|requested| + 32·|upload| + 113·|bitmap| + ⌈|bits|/8⌉ + 2`:
+      what the state held for the remote and a Choke / NotInterested / HaveNone / Bitfield /
+      DontHave releases or walks (each of those bytes was paid for by an earlier message of
+      at least that size: the bound is amortised, `Pot` is the potential).
+    No numeric field of `m` occurs on the right-hand side. -/
+theorem C05_alloc_bound (s : PeerState) (hr : Reachable s) (m : Wire.Msg) (ae : AddEnv) :
+    (handleMessage s (.wire m) ae).cost.alloc + sumCost (handleMessage s (.wire m) ae).outs ≤
+      192 * wireSize m + constB + idxTerm s + stateTerm s := by
+  have hi := C05_invariants s hr
+  have hc := cost_handleWire m ae { s := s } hi
+  have hk := msgK_le m s
+  have hnp := (handleMessage_ok s hi (.wire m) ae trivial).1
+  unfold handleMessage run at *
+  simp only [handleMessageM] at *
+  cases hres : handleWire m ae { s := s } with
+  | ret a c' =>
+    rw [hres] at hc
+    simp only [costOut_ret, Le, Psi, sumCost] at hc
+    simp only [sumCost]
+    simp at hc
+    omega
+  | err e c' =>
+    rw [hres] at hc
+    simp only [costOut_err, Le, Psi, sumCost] at hc
+    simp only [sumCost]
+    simp at hc
+    omega
+  | panic w c' =>
+    rw [hres] at hnp
+    exact absurd rfl (hnp w)
+
+/-- the same for a read error handed over by the reader: nothing is allocated -/
+theorem C05_alloc_bound_error (s : PeerState) (eof : Bool) (ae : AddEnv) :
+    (handleMessage s (.error eof) ae).cost.alloc = 0 ∧ (handleMessage s (.error eof) ae).outs = [] := by
+  constructor <;> rfl
+
+/-! ### allocation: the clause about attacker-chosen indexes, stated directly -/
 
 /-- C05_alloc_have_guard — the repaired guard: a `Have` whose index cannot be a piece index
     (≥ 8·2^20 before the metadata is known) is refused before anything is allocated or
